@@ -1,3 +1,92 @@
+//! C01: polygon fill coverage on quarter-pixel lattice polygons.
+use crate::util::*;
+use raqote::*;
 use serde_json::{json, Value};
-pub fn run(sc: &Value) -> Value { json!({"id": sc["id"], "outcome": "unimplemented"}) }
-pub fn drive(_seed: u64, _n: usize) -> Vec<Value> { Vec::new() }
+
+pub fn build_path(loops: &Value, closed: &Value, rule: &str, den: f32) -> Path {
+    let mut pb = PathBuilder::new();
+    for (li, l) in loops.as_array().unwrap().iter().enumerate() {
+        let pts = l.as_array().unwrap();
+        for (i, p) in pts.iter().enumerate() {
+            let x = num(&p[0]) / den;
+            let y = num(&p[1]) / den;
+            if i == 0 {
+                pb.move_to(x, y);
+            } else {
+                pb.line_to(x, y);
+            }
+        }
+        if closed.get(li).and_then(|b| b.as_bool()).unwrap_or(false) {
+            pb.close();
+        }
+    }
+    let mut p = pb.finish();
+    p.winding = if rule == "EvenOdd" { Winding::EvenOdd } else { Winding::NonZero };
+    p
+}
+
+pub fn run(sc: &Value) -> Value {
+    let w = int(&sc["w"]);
+    let h = int(&sc["h"]);
+    let rule = sc["rule"].as_str().unwrap_or("NonZero");
+    let aa = sc["aa"].as_bool().unwrap_or(true);
+    let route = sc["route"].as_str().unwrap_or("fill");
+    let path = build_path(&sc["loops"], &sc["closed"], rule, 4.0);
+    let mut dt = DrawTarget::new(w, h);
+    let white = Source::Solid(SolidSource { r: 255, g: 255, b: 255, a: 255 });
+    let opts = DrawOptions {
+        blend_mode: BlendMode::SrcOver,
+        alpha: 1.0,
+        antialias: if aa { AntialiasMode::Gray } else { AntialiasMode::None },
+    };
+    let res = std::panic::catch_unwind(std::panic::AssertUnwindSafe(|| match route {
+        "clip" => {
+            dt.push_clip(&path);
+            dt.fill_rect(0., 0., w as f32, h as f32, &white, &DrawOptions::new());
+            dt.pop_clip();
+        }
+        _ => dt.fill(&path, &white, &opts),
+    }));
+    json!({
+        "id": sc["id"], "fam": "cov", "w": w, "h": h, "loops": sc["loops"], "rule": rule, "aa": if route == "clip" { true } else { aa },
+        "route": route,
+        "outcome": if res.is_ok() { "ok" } else { "panic" },
+        "idle": dt.verif_rasterizer_idle(),
+        "pix": pix(dt.get_data()),
+    })
+}
+
+pub fn drive(seed: u64, n: usize) -> Vec<Value> {
+    let mut rng = Rng::new(seed ^ 0xC01);
+    let mut out = Vec::new();
+    for i in 0..n {
+        let tall = rng.chance(1, 10);
+        let w = rng.range(1, if tall { 4 } else { 6 });
+        let h = rng.range(1, if tall { 4 } else { 6 });
+        let nloops = rng.range(1, 3);
+        let mut loops = Vec::new();
+        let mut closed = Vec::new();
+        for _ in 0..nloops {
+            let nv = rng.range(3, if tall { 4 } else { 7 });
+            let mut pts = Vec::new();
+            for _ in 0..nv {
+                let (x, y) = if tall {
+                    (rng.range(-6000, 6000), rng.range(-6000, 6000))
+                } else {
+                    (rng.range(-12, 4 * w + 12), rng.range(-12, 4 * h + 12))
+                };
+                pts.push(json!([x, y]));
+            }
+            loops.push(Value::Array(pts));
+            closed.push(rng.chance(1, 2));
+        }
+        out.push(json!({
+            "id": format!("drv-cov-{}-{}", seed, i), "fam": "cov", "w": w, "h": h,
+            "loops": loops, "closed": closed,
+            "rule": if rng.chance(1, 2) { "EvenOdd" } else { "NonZero" },
+            "aa": !rng.chance(1, 4),
+            "route": if rng.chance(1, 8) { "clip" } else { "fill" },
+        }));
+    }
+    out
+}
